@@ -422,7 +422,10 @@ func runScenario(ctx *core.Ctx, bin string, idx int, sc scenario) {
 	replay := map[string]any{"scenario": sc.key(), "seed": ctx.Seed, "index": idx, "leader_markers": nmark, "since_follow_ms": time.Since(followAt).Milliseconds()}
 	// classification of the listed finding: a follower whose own log is below the
 	// 512 KiB checksum window is never reset / re-synchronised from its position
-	belowWindow := small || sc.initial == "prefix-small" || sc.initial == "unrelated-small"
+	// (D12 is repaired; the former classification for followers below the
+	// checksum window is kept off so that a regression is an ordinary violation)
+	belowWindow := false
+	_ = small
 	if len(early) > 0 {
 		key := "caught-up-early"
 		if belowWindow {
